@@ -1,6 +1,9 @@
 package main
 
-import "sort"
+import (
+	"fmt"
+	"sort"
+)
 
 // Stream synthesiser: builds DEFLATE streams block by block with a bit writer. It is NOT trusted:
 // every synthesised stream is judged by the reference inflater(s) and compress/flate.
@@ -138,17 +141,20 @@ func distSym(dist int) (sym, extraBits, extra int) {
 }
 
 type SynthOpts struct {
-	MaxBlocks int
-	MaxTokens int
-	Fault     string // "" or a fault name
-	BigStored bool
-	ManyTiny  bool
-	FarDist   bool
-	LongCodes bool
-	StdCompat bool // only shapes compress/flate accepts (complete codes)
+	MaxBlocks  int
+	MaxTokens  int
+	Fault      string // "" or a fault name
+	BigStored  bool
+	ManyTiny   bool
+	FarDist    bool
+	LongCodes  bool
+	StdCompat  bool // only shapes compress/flate accepts (complete codes)
+	ManyDist   bool // code many distance symbols (long distance codes, long-code tables)
+	Tight      bool // no unused-but-coded symbols: short codes, packed multi-symbol table entries
+	SmallAlpha int  // >0: literals drawn from this many symbols
 }
 
-var faultNames = []string{"dist-beyond", "unassigned-code", "oversubscribed", "missing-eob", "repeat-nothing", "run-past-count", "bad-nlen", "btype3", "len-286", "dist-30", "unassigned-dist", "no-dist-code-used", "oversub-cl", "hlit-range"}
+var faultNames = []string{"dist-beyond", "unassigned-code", "oversubscribed", "missing-eob", "repeat-nothing", "run-past-count", "bad-nlen", "btype3", "len-286", "dist-30", "unassigned-dist", "no-dist-code-used", "oversub-cl", "hlit-range", "unassigned-dist-long"}
 
 type Synth struct {
 	r     *Rng
@@ -157,12 +163,16 @@ type Synth struct {
 	desc  []string
 	fault string
 	done  bool // fault injected
+	small int
 }
 
 func (s *Synth) randTokens(n int, farDist bool, allowRefs bool) []tok {
 	var toks []tok
 	cur := len(s.out)
 	alpha := 1 + s.r.Intn(s.r.Pick([]int{2, 8, 64, 256}))
+	if s.small > 0 {
+		alpha = s.small
+	}
 	base := s.r.Intn(256)
 	for i := 0; i < n; i++ {
 		if allowRefs && cur > 0 && s.r.Intn(3) == 0 {
@@ -382,17 +392,24 @@ func (s *Synth) dynamic(final bool, toks []tok, o SynthOpts) {
 		}
 	}
 	// extra unused-but-coded symbols
-	for k := s.r.Intn(12); k > 0; k-- {
-		usedL[s.r.Intn(286)] = true
+	if !o.Tight {
+		for k := s.r.Intn(12); k > 0; k-- {
+			usedL[s.r.Intn(286)] = true
+		}
+		if s.r.Intn(3) == 0 {
+			usedL[285] = true
+		}
+		for k := s.r.Intn(4); k > 0; k-- {
+			usedD[s.r.Intn(30)] = true
+		}
+		if s.r.Intn(4) == 0 {
+			usedD[29] = true
+		}
 	}
-	if s.r.Intn(3) == 0 {
-		usedL[285] = true
-	}
-	for k := s.r.Intn(4); k > 0; k-- {
-		usedD[s.r.Intn(30)] = true
-	}
-	if s.r.Intn(4) == 0 {
-		usedD[29] = true
+	if o.ManyDist {
+		for k := 12 + s.r.Intn(14); k > 0; k-- {
+			usedD[s.r.Intn(30)] = true
+		}
 	}
 	fault := ""
 	if !s.done {
@@ -441,7 +458,7 @@ func (s *Synth) dynamic(final bool, toks []tok, o SynthOpts) {
 			injected = true
 			bad = tok{lit: victim}
 		}
-	case "unassigned-dist":
+	case "unassigned-dist", "unassigned-dist-long":
 		if len(ud) >= 2 {
 			injected = true
 		}
@@ -480,9 +497,17 @@ func (s *Synth) dynamic(final bool, toks []tok, o SynthOpts) {
 		ll2[bad.lit] = 0
 		ll = ll2
 		s.done = true
-	case fault == "unassigned-dist" && injected:
+	case (fault == "unassigned-dist" || fault == "unassigned-dist-long") && injected:
 		dl2 := append([]int{}, dl...)
 		victim := ud[len(ud)-1]
+		if fault == "unassigned-dist-long" {
+			// prefer a victim whose code is longer than the 10-bit short table
+			for _, x := range ud {
+				if dl[x] > 10 {
+					victim = x
+				}
+			}
+		}
 		dl2[victim] = 0
 		dl = dl2
 		extraTok = &tok{length: 3, dist: refDistBase[victim]}
@@ -644,12 +669,16 @@ func (s *Synth) dynamic(final bool, toks []tok, o SynthOpts) {
 
 // Synthesize builds one stream. Returns the bytes, the output the synthesiser believes it encodes and a description.
 func Synthesize(r *Rng, o SynthOpts) ([]byte, []byte, string) {
-	s := &Synth{r: r, fault: o.Fault}
+	s := &Synth{r: r, fault: o.Fault, small: o.SmallAlpha}
 	nb := 1 + r.Intn(max(1, o.MaxBlocks))
 	if o.ManyTiny {
 		nb = 200 + r.Intn(800)
 	}
 	faultBlock := r.Intn(nb)
+	if o.Fault == "unassigned-dist-long" && nb >= 2 {
+		faultBlock = 1 + r.Intn(nb-1) // stale entries need an earlier block
+		o.ManyDist, o.LongCodes = true, true
+	}
 	for b := 0; b < nb; b++ {
 		final := b == nb-1
 		kind := r.Intn(5) // 0 stored 1 fixed 2,3,4 dynamic
@@ -748,4 +777,71 @@ func (s *Synth) injectDistBeyond(toks []tok) []tok {
 	}
 	s.done = true
 	return append(toks, tok{length: 3 + s.r.Intn(20), dist: d})
+}
+
+// SynthBoundary builds a valid stream in which a block ends (or a match / literal group straddles) exactly
+// where the Reader's 64 KiB output window fills up: total output 65536 + 32768*j, plus or minus a few bytes.
+func SynthBoundary(r *Rng) ([]byte, []byte, string) {
+	s := &Synth{r: r, small: r.Pick([]int{1, 2, 3, 4, 8})}
+	boundary := 65536 + 32768*r.Intn(3)
+	m := r.Intn(500)
+	delta := r.Pick([]int{-2, -1, 0, 0, 1, 2, 3})
+	if m+delta < 0 {
+		delta = 0
+	}
+	// bulk of the output: stored blocks and a cheap periodic Huffman block
+	need := boundary - m
+	for need > 0 {
+		n := need
+		if n > 65535 {
+			n = 60000 + r.Intn(5000)
+		}
+		if r.Intn(3) == 0 && len(s.out) > 0 && n > 600 {
+			// a fixed block of long matches
+			var toks []tok
+			got := 0
+			for got+258 <= n {
+				toks = append(toks, tok{length: 258, dist: 1 + r.Intn(min(len(s.out), 300))})
+				got += 258
+			}
+			for got < n {
+				toks = append(toks, tok{lit: 'x'})
+				got++
+			}
+			s.fixed(false, toks)
+		} else {
+			s.stored(false, n)
+		}
+		need -= n
+	}
+	o := SynthOpts{Tight: true}
+	// the block that ends at the boundary
+	toks := s.randTokens(m+delta, false, false)
+	switch r.Intn(4) {
+	case 0: // end with a match that crosses the boundary
+		if len(toks) > 6 {
+			toks = toks[:len(toks)-5]
+			toks = append(toks, tok{length: r.Pick([]int{3, 10, 258}), dist: 1 + r.Intn(200)})
+		}
+	case 1: // literals then a match landing exactly on it
+		if len(toks) > 12 {
+			toks = toks[:len(toks)-10]
+			toks = append(toks, tok{length: 10 - delta, dist: 1 + r.Intn(200)})
+		}
+	}
+	if r.Bool() {
+		s.dynamic(false, toks, o)
+	} else {
+		s.fixed(false, toks)
+	}
+	// what follows
+	tail := s.randTokens(r.Pick([]int{0, 1, 2, 50, 3000}), false, true)
+	s.small = 0
+	if r.Bool() {
+		s.dynamic(false, tail, o)
+		s.dynamic(true, s.randTokens(r.Intn(2000), false, true), SynthOpts{})
+	} else {
+		s.dynamic(true, tail, o)
+	}
+	return s.w.b, s.out, fmt.Sprintf("boundary%d%+d", boundary, delta)
 }
